@@ -437,6 +437,13 @@ def judgeCase (c : CaseRec) (k : Nat) (seed : Nat) (rep : Report) (jobs : Array 
   let want := if c.forced then topoTypePolyhedral else detectTopo c.kind src0.faces src0.cells
   if topo != want then
     rep := rep.fail c.id "topo-type" s!"header topo type {topo}, detect gives {want}" c.bytes
+  -- original bytes into every reader configuration of the real reader: whatever the model says about them below,
+  -- the real reader must give the source mesh back (a writer whose own file the reader rejects is a failing input)
+  for mk in [MeshKind.poly, .tet, .hex] do
+    for tc in [false, true] do
+      for bu in [false, true] do
+        if c.bytes.length ≤ 200000 || (mk == c.kind && !bu) then
+          jobs := jobs.push (jobLine s!"{c.id}.o.{kindChar mk}{if tc then 1 else 0}{if bu then 1 else 0}" mk tc bu c.bytes)
   -- (i) the model reader decodes the C++ bytes to the dumped mesh
   match decode (mkCfg .poly false) c.bytes with
   | .error e =>
@@ -461,12 +468,6 @@ def judgeCase (c : CaseRec) (k : Nat) (seed : Nat) (rep : Report) (jobs : Array 
         if !ValidLayout wl F then rep := rep.fail c.id "writer-layout-invalid" "ValidLayout (writerLayout F) F = false" c.bytes
         else if encodeWith wl F != c.bytes then rep := rep.fail c.id "writer-layout-bytes" "encodeWith (writerLayout F) F ≠ bytes" c.bytes
         else rep := rep.bump "writer_layout_ok"
-      -- original bytes into every reader configuration
-      for mk in [MeshKind.poly, .tet, .hex] do
-        for tc in [false, true] do
-          for bu in [false, true] do
-            if c.bytes.length ≤ 200000 || (mk == c.kind && !bu) then
-              jobs := jobs.push (jobLine s!"{c.id}.o.{kindChar mk}{if tc then 1 else 0}{if bu then 1 else 0}" mk tc bu c.bytes)
       -- (iii) k alternative encodings
       if WFFile F then
         let mut r : Rng := ⟨seed * 1000003 + c.id.hash.toNat % 1000000007⟩
